@@ -9,6 +9,8 @@ theorem verdict : (classify Generated.factsC03).Sound (Holds (cfgOf Generated.fa
 #eval IO.println (verdictLine "C03" (classify Generated.factsC03))
 #print axioms verdict
 #print axioms compact_preserves
+#print axioms compact_preserves_torn
+#print axioms compaction_anywhere
 #print axioms compact_stale_temp_resurrects
 #print axioms not_preserves_of_stale
 #print axioms compact_crash_atomic
